@@ -174,6 +174,8 @@ def needs_file(x):
 
 
 G_INT = 7
+input = 11  # (module globals named like built-ins: variables of the program all the same)
+license = -4
 G_LIST = [3, 1, 2]
 G_STR = "glob"
 G_NONE = None
@@ -261,8 +263,10 @@ class Gen:
             return self.n(self.rng.choice(["a", "b"]))
         if r < 0.85:
             return "c1"
-        if r < 0.93:
+        if r < 0.91:
             return "G_INT"
+        if r < 0.93:
+            return self.rng.choice(["input", "license"])
         return "{}.v".format(self.n("o"))
 
     def int_expr(self, d: int = 0) -> str:
